@@ -65,7 +65,7 @@ theorem spiFall_eq (s : SpiSt) (x : SpiIn) (k div : Nat) (hc : s.cnt = k) (hd : 
 
 /-- One RUN cycle.  `smp i` must be `pads.miso` in the cycle of the rise strobe of pulse `i`. -/
 theorem spi_run_step (c : SpiCfg) (div L w m0 : Nat) (smp : Nat → Bool) (hdiv : 2 ≤ div) (hd16 : div < 65536)
-    (hL : 1 ≤ L) (hLw : L ≤ c.dw) (i k : Nat) (hi : i < L) (hk : k < div) (s : SpiSt) (x : SpiIn)
+    (hL : 1 ≤ L) (hLw : L ≤ c.dw) (i k : Nat) (hi : i < L) (_hk : k < div) (s : SpiSt) (x : SpiIn)
     (hx : SpiHold div L x) (hs : k + 1 = div / 2 → x.miso = smp i)
     (h : RunInv c div L w m0 smp i k s) :
     (k + 1 < div → RunInv c div L w m0 smp i (k + 1) (spiNext c s x)) ∧
@@ -129,7 +129,7 @@ theorem spi_run_step (c : SpiCfg) (div L w m0 : Nat) (smp : Nat → Bool) (hdiv 
     · have : min (spiSel0 c L - (i + 1)) (c.dw - 1) = spiSel0 c L - (i + 1) := by omega
       simp [spiNext, hlatch, hfall, hxf, hsel, h.mdata, this]
     · intro hle
-      simp only [spiNext, hlatch, hfall, if_true, hsel, Bool.false_eq_true, if_false]
+      simp only [spiNext, hlatch, hfall, if_true, hsel]
       have : spiSel0 c L - (i + 1) + c.cmod - 1 = (spiSel0 c L - (i + 1 + 1)) + c.cmod := by omega
       rw [this, Nat.add_mod_right]
       exact Nat.mod_eq_of_lt (by omega)
@@ -341,7 +341,7 @@ theorem spi_start_step (c : SpiCfg) (div L w : Nat) (smp : Nat → Bool) (hdiv :
       simp [this]
     · simp [spiNext, hidle, hfall, hxf, h.sel, h.mdata, hmin]
     · intro hle
-      simp only [spiNext, hidle, hfall, h.sel, Bool.false_eq_true, if_false, if_true]
+      simp only [spiNext, hidle, hfall, h.sel, if_true]
       have : spiSel0 c L + c.cmod - 1 = (spiSel0 c L - (0 + 1)) + c.cmod := by omega
       rw [this, Nat.add_mod_right]
       exact Nat.mod_eq_of_lt (by omega)
